@@ -79,6 +79,15 @@ func NewEncryptedISO(f afero.File, data1 []byte, clearRegions bool) (*EncryptedI
 		return nil, fmt.Errorf("seek start failed: %w", err)
 	}
 
+	// sector numbers are int32 here: image with more sectors can't be addressed (and decrypted) properly
+	info, err := f.Stat()
+	if err != nil {
+		return nil, fmt.Errorf("stat failed: %w", err)
+	}
+	if sizeBytes(info.Size()) > sizeSectors(math.MaxInt32).bytes() {
+		return nil, fmt.Errorf("image is too large (%d bytes)", info.Size())
+	}
+
 	var hdr unencryptedRegionsHeader
 	err = binary.Read(f, binary.BigEndian, &hdr)
 	if err != nil {
